@@ -29,7 +29,7 @@ def make_wiki(cfg):
     pages = {}
     images = []
     tdepth, img = cfg["tdepth"], cfg["img"]
-    img_markup = "[[File:Pic one.png|thumb|cap]]"
+    img_markup = "[[File:Pic one.png|thumb|cap]]" + (" [[File:Pic two.png]] [[File:Pic three.png|30px]]" if cfg.get("many") else "")
     # template chain T1 -> T2 ; the image may only be reachable through the deepest template
     if tdepth >= 1:
         pages["Template:T1"] = [(101, "t1[{{{1}}}]" + ("{{T2}}" if tdepth >= 2 else (img_markup if img == "deep" else "")))]
@@ -43,6 +43,8 @@ def make_wiki(cfg):
     pages["Beta"] = [(21, "Beta text %s." % (img_markup if img == "shared" else ""))]
     if img != "none":
         images.append("File:Pic one.png")
+        if cfg.get("many"):
+            images += ["File:Pic two.png", "File:Pic three.png"]
     red = cfg["redirect"]
     articles = []
     if red == "none":
@@ -68,7 +70,7 @@ def make_wiki(cfg):
         articles.append(("Beta", None))
     if cfg["missing"]:
         articles.insert(1 if articles else 0, ("Missing page", None))
-    contributors = {"Alpha": {"named": ["Ann", "Bob"], "bots": ["CleanupBot"], "anon": 3},
+    contributors = {"Alpha": {"named": ["Ann", "Bob", "Cid", "Dee"] if cfg.get("many") else ["Ann", "Bob"], "bots": ["CleanupBot"], "anon": 3},
                     "Beta": {"named": ["Cy"], "bots": [], "anon": 0},
                     "File:Pic one.png": {"named": ["Uploader"], "bots": ["ImageBot"], "anon": 1}}
     return SynthWiki(pages, images, contributors), articles
@@ -96,6 +98,15 @@ class Configs(Space):
                                                 continue
                                             cs.append({"tdepth": tdepth, "img": img, "redirect": red, "revs": revs, "two": two, "missing": missing,
                                                        "noimages": noimages, "limit": limit, "chapters": chapters, "sched": ()})
+        # result limits 1 / 2 / 3 with query continuation: several images and contributors per page
+        for c in list(cs):
+            if c["img"] != "none" and c["redirect"] in ("none", "single") and not c["missing"] and not c["chapters"] and c["revs"] == "single" \
+                    and (tier != "quick" or (c["two"] and c["tdepth"] != 1)):
+                for rl in ((1, 2, 3) if tier != "quick" else (1, 2)):
+                    d = dict(c)
+                    d["many"] = True
+                    d["rlimit"] = rl
+                    cs.append(d)
         # schedules: deviations from FIFO for representative configurations are generated lazily (see run_case)
         self.cases = cs
         rep = [c for c in cs if c["tdepth"] == 2 and c["img"] in ("deep", "shared") and c["two"] and not c["missing"] and not c["noimages"]
@@ -174,7 +185,8 @@ def run_fetch(cfg, schedule, deadline_steps=20000):
     if not conf.config.has_section("fetch"):
         conf.config.add_section("fetch")
     conf.config["fetch"]["api_request_limit"] = str(cfg["limit"])
-    conf.config["fetch"]["api_result_limit"] = "500"
+    conf.config["fetch"]["api_result_limit"] = str(cfg.get("rlimit", 500))
+    conf.config["fetch"]["rvlimit"] = str(cfg.get("rlimit", 500))
     conf.config["fetch"]["max_requests_per_second"] = "0"
     mn.mwapi.MwApi = SynthApi
     fetch._get_download_client = lambda url: FakeClient()
@@ -314,7 +326,7 @@ class C11(InputProp):
             "response delivery order within the deviation bound (explored by re-running with a choice prefix); distinct = distinct "
             "(configuration outcome, archive content) classes")
     assumptions = ("one wiki (no multi-wiki metabooks); no HTTP errors/retries; image downloads complete when requested (only API responses are re-ordered)",
-                   "the synthetic wiki implements the API subset MwApi uses; query continuation is not exercised (result limit 500)",
+                   "the synthetic wiki implements the API subset MwApi uses, including old-style query continuation for images/templates/contributors under result limits 1..3",
                    "gevent FIFO callback semantics as for C16")
     chunk = 8
     soft_timeout = 120.0
